@@ -113,6 +113,12 @@ void h_filter_matches(void) {
   pol.match = stub_match; pol.build = NULL;
   ldb_filter_init(&fr, &pol, &c);      /* real initialiser (its own contract: flt.init) */
   g_blk = buf; g_blk_n = in_n; g_match_calls = 0;
+#ifdef DBG
+  CHECK(FM_RI(&fr), "dbg RI");
+  CHECK(fr.policy->match == stub_match, "dbg match");
+  CHECK(__CPROVER_r_ok(g_blk, g_blk_n), "dbg rok");
+  CHECK(0, "dbg reach");
+#endif
   ldb_filter_matches(&fr, in_block_offset, &key);
   CANARY();
 }
